@@ -15,6 +15,26 @@ CHECKS = {
          'For every generated program the complete reachable (code, ip, operand-stack height) graph is explored with the invariants one-height-per-ip, no underflow, program ends with exactly its result; the stack-effect table is bound to the implementation by checking every instruction executed by the real VM (step hook) against it; loop skeletons are additionally run at 10 vs >2x/100x stack-capacity iterations against the reference interpreter.',
          'Trusted: the effect table in internal/bcflow (validated per run by step-hook conformance), the vm step hook (tag verif). Programs outside the generated families are not covered.',
          'E2 bcflow', '4 C04'),
+ 'C02': ('exploration', 'bounded-exhaustive enumeration of closure nestings x capture level x call path against a reference interpreter with heap environments',
+         'Every combination of nesting depth 1..3 (thorough 1..5), owning level, per-level in-place/returned call path, read/write access and 11 invocation routes (direct, containers, builtin callbacks, try, call, spawn, fn.spawn, vm.Get+vm.Call from Go) is rendered to source and run on the real pipeline and on the reference interpreter; the escaped closure is invoked twice and a sibling closure over the same binding is read afterwards.',
+         'Trusted: the reference interpreter. One known finding (capture across a returned frame) is matched by a generator-side structural tag; any other disagreement is a violation.',
+         'E1 progen+refsem', '4 C02'),
+ 'C08': ('exploration', 'bounded-exhaustive enumeration of Go types (reflect-built, depth 2/3) x boundary values x 4 boundary routes with a contents + typed round-trip oracle',
+         'Every Go type from 38 leaf types under 6 constructors to depth 2 (thorough 3), with zero/nil/min/max/ordinary values, crosses the boundary by 4 routes (global, field read, field write, method argument/result) in crash-isolated workers; contents must equal the normalised original, the typed round trip must be DeepEqual, or a clean error; never a panic.',
+         'Trusted: the normalisation function N and the relaxations listed in DESIGN (nil vs empty, integer width under any). Types beyond depth 3, chan/func/complex are out of scope.',
+         'E5 enum + E7 crashbox', '4 C08'),
+ 'C11': ('model_checking', 'explicit-state graph search: GetAttr closure of every configuration (fixpoint) + every script-level access path evaluated on the real VM',
+         'For every configuration that denies or overrides any single default name (1232 configurations; thorough adds all in-module pairs, 34931) the object graph reachable from the configured globals under GetAttr is explored to a fixpoint and checked for removed objects / missing replacements; 10958 generated script access paths are evaluated per relevant configuration; sequences of configurations are checked for interference.',
+         'Trusted: object identity by pointer and (Key, Go function symbol) fingerprint; values obtained by calling builtins are not followed.',
+         'E4 graph search', '4 C11'),
+ 'C15': ('exploration', 'bounded-exhaustive enumeration of all pairs and triples over a 45-value boundary pool and all short lists as sort/set inputs, checked against the algebraic laws',
+         'All 2025 pairs and 91125 triples over the boundary pool through the object API and through real scripts, all lists up to length 3 (thorough 5) over 11 alphabets through sorted/sort/set/in/truthiness, plus all 3^13 lists of length 13 for sort stability; each law of the statement has its own signature.',
+         'Trusted: the law checker; cross-type transitivity is not demanded (statement). One known finding (set membership across numeric types).',
+         'E5 enum', '4 C15'),
+ 'C16': ('model_checking', 'explicit-state BFS to a fixpoint over reachable container states (real objects replayed from the shortest history) against a Go slice/map reference model, plus all un-merged operation sequences to depth 2/3',
+         'Reachable states of list, map, set, string and byte_slice under the full operation alphabet with indices in [-len-2, len+2] are explored to a fixpoint; every (state, operation) step is executed on fresh real objects through the object API (and a stride / all of them through real scripts) and compared with the reference model on result, error and the contents of every live alias.',
+         'Trusted: the reference model in internal/c16/model.go; the state key (contents of all live variables) is complemented by un-merged sequences so hidden state (capacity) cannot hide.',
+         'E4 histbfs', '4 C16'),
  'C13': ('exploration', 'bounded-exhaustive enumeration of path strings x operations x layouts against a component-wise containment oracle',
          'Every path string over the 7-segment alphabet up to 5 (quick) / 6 (thorough) segments, absolute/relative, with/without trailing separator, is pushed through os.ResolvePath, through every localfs operation on a real temp tree with sentinels outside the base, and through every VirtualOS operation over 7 mount tables x 4 working directories with recording filesystems; the oracle is an independent component-wise prefix computation. Complete within the stated alphabet and length.',
          'Trusted: the oracle in internal/c13 (filepath.Clean + component-wise prefix); effects observed on a real tmpfs tree. Not covered: segments outside the alphabet, host-planted symlinks.',
